@@ -675,8 +675,14 @@ class FuncAnalysis:
                 return FRESH_ARRAY
             if isinstance(recv, ast.Attribute) and isinstance(recv.value, ast.Name) and recv.value.id == "np" and recv.value.id not in self.env:
                 return FRESH_ARRAY  # np.add.reduceat, np.maximum.accumulate, np.random...
-            if isinstance(recv, ast.Name) and recv.id == "copy" and attr in ("deepcopy", "copy"):
+            if isinstance(recv, ast.Name) and recv.id == "copy" and attr == "deepcopy":
                 return FRESH
+            if isinstance(recv, ast.Name) and recv.id == "copy" and attr == "copy":
+                # a shallow copy is a new object whose parts are the original's parts
+                out = FRESH
+                for a in args[:1]:
+                    out = AV(E, a.roots(), None, a.ikind)
+                return out
             if isinstance(recv, ast.Name) and recv.id in ("aggregate_flox", "aggregate_npg", "aggregate_numbagg", "xrutils", "dtypes", "xrdtypes", "utils") and recv.id not in self.env:
                 m = {"dtypes": "xrdtypes", "utils": "xrutils"}.get(recv.id, recv.id)
                 if m in self.an.mods:
